@@ -37,6 +37,9 @@ C['C16']=("Static analysis: the failure-threshold table of markUnavailableIntern
 C['C18']=("Static analysis: the decision table of ChooseDialTarget over 192 abstract inputs (dial mode x reserved x name class x DNS knowledge x verified-cache state), extracted by constant propagation over its CFG, equals the reference written from the property; normalisation order by dominance; re-route gate and target recomputation on every path to selection; the real-domain probe's verdict table over (err4, err6, valid4, valid6).",
  "Trusted: go/types, go/cfg, internal/fdt, the reference tables in internal/props/c18.go (which record this fork's tested behaviour of re-routing a verified name in domain mode). Not decided: string edge cases inside net.*, cache freshness.",
  "static analysis: finite decision tables by constant-propagation dataflow over go/cfg (exhaustive abstract inputs) + dominance / must-pass-through")
+C['C19']=("Static analysis with two front ends: clang 14's record layouts, enum/macro values and map declarations of tproxy.c (through a header shim) are compared exactly with go/types + types.Sizes of every Go mirror (stub build and real-build variant; other GOARCH sizes and the MAX_MATCH_SET_LEN knob in the thorough tier): every member's offset and width, every shared constant, map capacities, and the shape (32-bit arithmetic, member coverage) of the key constructors.",
+ "Trusted: clang 14 front end and the shim under /verif/cshim (UAPI headers only), go/types Sizes for gc. Not decided: BTF-generated bpf2go types (absent here), big-endian hosts (the Makefile also builds bpfeb; explicit little-endian encoders are only decided for little-endian targets).",
+ "static analysis: cross-language layout and constant agreement (clang -fdump-record-layouts / JSON AST vs go/types Sizes), both build variants")
 def chk(pid):
     text,note,tech=C[pid]
     return {"property_id":pid,"quick_cmd":f"bin/daecheck -p {pid} -tier quick","thorough_cmd":f"bin/daecheck -p {pid} -tier thorough","evidence_file":f"/verif/evidence/{pid}.json",
